@@ -556,8 +556,9 @@ func c18CaseInsts(tier string) []CaseInst {
 		{"N13", []*Ty{Slice(I), S}, nil},
 		{"N14", []*Ty{Slice(B("uint8")), I}, []*Ty{I}}, // []byte as a field of the input struct (F2 region carved)
 	}
+	cases = append(cases, memCase{"N08", []*Ty{Map(S, I)}, []*Ty{I}}) // a map argument: its hash must not depend on iteration order
 	if tier != "quick" {
-		cases = append(cases, memCase{"N08", []*Ty{Map(S, I)}, []*Ty{I}}, memCase{"N09", []*Ty{leafTy, Named("NInt", I)}, []*Ty{Bo}})
+		cases = append(cases, memCase{"N09", []*Ty{leafTy, Named("NInt", I)}, []*Ty{Bo}})
 	}
 	var out []CaseInst
 	for _, mc := range cases {
@@ -627,10 +628,19 @@ func c18CaseInsts(tier string) []CaseInst {
 					strings.Join(fps, ", "), retSig, sameC, ro, strings.Join(recA, ""), strings.Join(recR, ""), rn)
 				fmt.Fprintf(&b, "\tm := deriveMem%s(f)\n", id)
 				calls := 3
+			for _, p := range mc.Params {
+				if p.K == "map" {
+					calls = 2 // two-entry maps under symbolic iteration orders: three calls exceed the solver budget
+				}
+			}
 				for c := 0; c < calls; c++ {
 					var as []string
 					for i, p := range mc.Params {
-						fmt.Fprintf(&b, "\ta%d_%d := %s\n", c, i, ndo(p, fmt.Sprintf("a%d_%d", c, i), "len=1,cap=0,str=1,map=1"))
+						opt := "len=1,cap=0,str=1,map=1"
+					if p.K == "map" {
+						opt = "len=1,cap=0,str=1,map=2" // two entries: the derived hash must not depend on their iteration order
+					}
+					fmt.Fprintf(&b, "\ta%d_%d := %s\n", c, i, ndo(p, fmt.Sprintf("a%d_%d", c, i), opt))
 						if carveF2 && p.K == "slice" && p.Elem.K == "basic" && p.Elem.Name == "uint8" {
 							// outside known finding F2: no empty non-nil []byte among the arguments
 							fmt.Fprintf(&b, "\tvx.Assume((a%d_%d == nil) == (len(a%d_%d) == 0))\n", c, i, c, i)
